@@ -64,3 +64,7 @@
 (assert (= (lowerS "0") "0"))
 (assert (= (lowerS "1") "1"))
 (assert (forall ((n Int)) (! (= (lowerS (str.from_int n)) (str.from_int n)) :pattern ((lowerS (str.from_int n))))))
+; named (not interpreted): the k-th entry of the submatch-index vector of the leftmost match of a
+; compiled pattern in a string, and strings.TrimRight
+(declare-fun reIdx (Int String Int) Int)
+(declare-fun trimRightS (String String) String)
